@@ -1812,7 +1812,7 @@ def run(ctx):
         rc, out = res[name]
         lists = parse_eval_lists(out) if rc == 0 else []
         ok = rc == 0 and len(lists) == 1 and lists[0] == []
-        ctx.obligation("corr:%s (Model.run == implementation, every observation of every history)" % name, ok, out[-1500:])
+        ctx.obligation("corr:%s (Model.xrun == implementation, every observation of every history)" % name, ok, out[-1500:])
         if rc == 0 and lists and lists[0]:
             hbad += [k * SH + i for i in lists[0]]
         elif rc != 0:
